@@ -174,3 +174,28 @@ package codegen
 //@   ensures [handle] space == ir.SpaceHandle ==> result0 == 0 && result1 == nil
 //@   pure
 //@   nopanic
+//
+// ---- per-compilation state is fully cleared (C12) -----------------------------------
+//
+// A Backend / ModuleBuilder is reused across Compile calls; output may depend
+// only on (module, options). Reset must therefore leave every field that a
+// compilation writes in the state a fresh instance has. The obligation is
+// derived from the struct declarations: a cache added to the struct later and
+// not cleared here fails `reset:<field>`.
+//
+//@ func (*Backend).Reset
+//@   mode bv
+//@   tags C12
+//@   requires [recv] b != nil
+//@   reset b keep builder options ib.arena
+//@   nopanic
+//
+//@ func (*ModuleBuilder).Reset
+//@   mode bv
+//@   tags C12 C02
+//@   requires [recv] b != nil
+//@   reset b keep version generator nextID arena.buf ib.arena
+//@   ensures [version] b.version == version
+//@   ensures [next-id] b.nextID == 1
+//@   ensures [generator] b.generator == GeneratorID
+//@   nopanic
